@@ -5,7 +5,8 @@ CLAIMS = {
         'text': 'Decides, for every path of the anchored datastore functions, the shape of the address arithmetic: '
                 'the acceptance region of sequential validate, slice bounds of get/set, the sparse range/subset test, '
                 'the zero-mode offset (an explicit zero_mode argument, False included, is honoured) and table selection of the slave context, routing / id interval of the server context, and storage isolation (default blocks fresh per table and per context, constructors copy their initial values). These are necessary conditions of the property that hold or fail for all inputs at once; '
-                'operation histories are not decided.',
+                'operation histories are not decided.'
+                ' No sharing idiom (dict.fromkeys over a mutable value, [x]*n) builds the default tables; blocks and contexts own their state per instance.',
         'note': 'Python slice/dict/set semantics trusted; only the in-memory blocks and contexts named in the anchors are analysed.',
         'technique': 'path enumeration + affine constraint normal forms (static)',
     },
@@ -14,7 +15,8 @@ CLAIMS = {
                 'return getValues(fc, validated address, validated count), writes store the request values at the validated '
                 'address, FC23 writes before it reads, responses echo the spec fields, the FC22 stored value has the spec truth '
                 'table, and validate/get/set of the slave context share one address transform, and the four tables of a context are distinct objects by default, and block getValues/setValues touch exactly the addressed cells. Necessary structural conditions; '
-                'request histories and "latest write wins" are not decided.',
+                'request histories and "latest write wins" are not decided.'
+                ' Echo fields of write responses keep a 0 argument; contexts and blocks own their tables per instance.',
         'note': 'In-memory ModbusSlaveContext only; struct and Python list semantics trusted; C18 decides block arithmetic.',
         'technique': 'path enumeration with value propagation + bitwise truth table + sibling comparison (static)',
     },
@@ -22,7 +24,8 @@ CLAIMS = {
         'text': 'Decides for all paths of the data-access execute() methods that an accepted request satisfies exactly the spec '
                 'quantity intervals and byte-count relations, that guard / address failures answer 03 / 02 with the request '
                 'function code, that every setValues is dominated by every guard and by validate(fc, same address, number of '
-                'values written), that no path writes and then answers an exception, that unknown codes yield exception 01 that every front-end maps a datastore exception to 04, and that the block validate() predicates behind the range guard accept a range iff every addressed cell exists. Boundary sweeps over concrete stores are not run.',
+                'values written), that no path writes and then answers an exception, that unknown codes yield exception 01 that every front-end maps a datastore exception to 04, and that the block validate() predicates behind the range guard accept a range iff every addressed cell exists. Boundary sweeps over concrete stores are not run.'
+                ' The server decoder owns its tables (a function registered on another server is still answered with 01).',
         'note': 'Attribute<->wire binding of guarded fields is decided by C01/C02; block range arithmetic by C18. Three genuine '
                 'defects (FC5 value word, FC15 quantity) are listed in known_findings.jsonl.',
         'technique': 'guard/dominance analysis over enumerated paths, interval + affine normal forms (static)',
@@ -32,7 +35,8 @@ CLAIMS = {
                 'exactly one send per path except broadcast / ignored absent unit, at most one transport write per send and only '
                 'under should_respond with the bytes of framer.buildPacket, ids copied before send, response classes carry the '
                 'request function/sub-function code, transport writes reachable only through send<-execute<-framer callback, '
-                'per-connection framer creation, processIncomingPacket call signatures, no deferred scheduling on the response path, and (datagram front-ends) the destination of every reply traced back to the source address of the datagram that carried this request, one datagram per framer call, coherent framer state between calls, and decoder.register() keeping the built-in sub-function dispatch.',
+                'per-connection framer creation, processIncomingPacket call signatures, no deferred scheduling on the response path, and (datagram front-ends) the destination of every reply traced back to the source address of the datagram that carried this request, one datagram per framer call, coherent framer state between calls, and decoder.register() keeping the built-in sub-function dispatch.'
+                ' The asyncio handler is constructed with, and bound to, the server that accepted the connection; the server keeps the context object it was given.',
         'note': 'request.execute may raise any Exception, context lookup NoSuchSlaveException; other statements non-raising. '
                 'Byte-exact output streams over request histories are not decided.',
         'technique': 'per-path effect counting over interprocedural path enumeration + who-may-call + signature conformance (static)',
@@ -40,7 +44,8 @@ CLAIMS = {
     'C10': {
         'text': 'Decides the unit-filter decision table rows the property fixes, that every non-broadcast path executes once against '
                 'context[request.unit_id], that the broadcast branch (iff broadcast_enable and unit 0) iterates context.slaves() and executes in every iteration, once each, without sending, the gateway exception / silence for absent units, that every receive loop passes '
-                'context.slaves()/context.single and admits unit 0 under broadcast and only then, the server-context routing/id interval, that contexts do not share default blocks, and that no truthiness test can replace the context handed to a server by a default one.',
+                'context.slaves()/context.single and admits unit 0 under broadcast and only then, the server-context routing/id interval, that contexts do not share default blocks, and that no truthiness test can replace the context handed to a server by a default one.'
+                ' The asyncio handler is bound per instance to the server that created it; contexts and blocks own their tables per instance.',
         'note': 'Non-interference between unit datastores at run time follows from these routing facts plus C05 R2; it is not itself decided.',
         'technique': 'decision-table enumeration + path routing analysis + sibling agreement (static)',
     },
@@ -49,14 +54,16 @@ CLAIMS = {
                 'transport read can leave the loop, and the handler resets the framer or ends the connection (a handler task shared by all peers of a datagram endpoint must not end); datastore mutators are '
                 'reachable only through Request.execute <- front-end execute; framers/decoders never touch datastores; framers hold no '
                 'class-level mutable state and every connection owns its framer; a framer path that delivers a message without a successful checkFrame is accepted only when restricted to function codes >= 0x80 (they decode to a request that touches no datastore); decode() of every write request reads exactly the declared fields; a framer shared by all peers of a datagram endpoint keeps nothing of an undelivered datagram (with an inductively proved entry invariant of the socket framer). Thorough tier cross-checks the Twisted reactor '
-                'containment assumption against the installed Twisted sources.',
+                'containment assumption against the installed Twisted sources.'
+                ' Cursor loops of the request decoders advance on every path back to the loop test (no request can spin a server thread / event loop); decoder and framer state is per instance; asyncio handlers are bound to their server.',
         'note': 'Statements other than the framer call / transport read are treated as non-raising; Twisted containment is an assumption in the quick tier.',
         'technique': 'exception-flow analysis over enumerated paths + call-graph who-may-call (static)',
     },
     'C17': {
         'text': 'Sibling cross-check: the normalised execute / send / receive-loop summaries of all seven front-end variants are compared '
                 'with the reference (sync stream handler); any divergence in exception->response mapping, id copies, send count, context '
-                'key, should_respond gate, payload source or framer-call arguments is reported. Datagram front-ends hand the framer one datagram per call. Stream receive loops must not reset the framer on an iteration without a fault, for every reachable state of their loop-carried flags (fixpoint over the loop body). Broadcast rows are exempt (C10).',
+                'key, should_respond gate, payload source or framer-call arguments is reported. Datagram front-ends hand the framer one datagram per call. Stream receive loops must not reset the framer on an iteration without a fault, for every reachable state of their loop-carried flags (fixpoint over the loop body). Broadcast rows are exempt (C10).'
+                ' The asyncio handler reads its server from an instance attribute bound by every constructor path to the server that created it.',
         'note': 'Decides agreement of the code summaries, not byte-identical outputs over histories or interleavings.',
         'technique': 'cross-checking sibling implementations via path summaries (static)',
     },
@@ -64,7 +71,8 @@ CLAIMS = {
         'text': 'Enumerates every interprocedural path of processIncomingPacket (TCP, RTU, ASCII, binary; callees inlined) and decides '
                 'four necessary conditions of chunking independence: deliveries lie inside a loop that continues after a delivery; on '
                 'every path that takes a data-absence outcome (length too small / end delimiter not found) nothing is discarded, raised '
-                'or delivered afterwards; header truthiness after construction equals that after reset when code branches on it; sizing errors on partial data cannot escape; plus coherence of the state carried between calls (a cached header is reset whenever bytes are dropped from the front of the buffer, addToFrame only appends, no branch looks at the chunk just received). Eight genuine defects of the pinned tree are listed as known findings.',
+                'or delivered afterwards; header truthiness after construction equals that after reset when code branches on it; sizing errors on partial data cannot escape; plus coherence of the state carried between calls (a cached header is reset whenever bytes are dropped from the front of the buffer, addToFrame only appends, no branch looks at the chunk just received). Eight genuine defects of the pinned tree are listed as known findings.'
+                ' A header field that holds a slice of the receive buffer is taken in the call that reads it; framers own their header per instance.',
         'note': 'Only explicit length / delimiter tests classify as data absence. Equality of delivered sequences over all chunkings is not decided.',
         'technique': 'interprocedural path enumeration with effect classification (buffer shrink / delivery / raise) (static)',
     },
@@ -72,13 +80,15 @@ CLAIMS = {
         'text': 'Decides that every path to a delivery passes the true outcome of checkFrame and of checkCRC/checkLRC (MBAP length '
                 'check with the exact constant on TCP), that the checksum input range starts at the unit byte and ends where the '
                 'delivered PDU ends on the same buffer version, that the check value is read from the two bytes right after it, and that '
-                'checkCRC/checkLRC are equalities with the CRC constants 0xFFFF/0xA001.',
+                'checkCRC/checkLRC are equalities with the CRC constants 0xFFFF/0xA001.'
+                ' On TCP every registered decode() consumes exactly the buffer the MBAP length announced or bounds its reads by len(buffer) (19 known findings).',
         'note': 'Error-detection power of CRC-16/LRC and the arithmetic inside computeCRC/computeLRC are outside static reach.',
         'technique': 'must-pass-through (dominance on enumerated paths) + affine slice-range comparison with versioned buffer (static)',
     },
     'C11': {
         'text': 'Decides progress conditions per failure kind on RTU/ASCII/binary: after a failed integrity check, after a foreign-unit '
-                'frame and when garbage precedes a start delimiter the buffer shrinks before the call returns; receive loops reset the framer or end the connection after a framer exception; the garbage skip cuts at the first start delimiter; state carried between calls stays coherent (cached header reset on every front drop, addToFrame only appends). Liveness over all futures and the two-frame bound are not decided.',
+                'frame and when garbage precedes a start delimiter the buffer shrinks before the call returns; receive loops reset the framer or end the connection after a framer exception; the garbage skip cuts at the first start delimiter; state carried between calls stays coherent (cached header reset on every front drop, addToFrame only appends). Liveness over all futures and the two-frame bound are not decided.'
+                ' The serial client drains stale input before every request on every framing (shared with C13).',
         'note': 'Necessary conditions only; RTU in-stream resynchronisation is not decided.',
         'technique': 'path enumeration + effect-after-event rules (static)',
     },
@@ -86,7 +96,8 @@ CLAIMS = {
         'text': 'Decides the pairing structure of ModbusTransactionManager.execute: under which key the received message is filed '
                 '(its own id vs. a key forced from the request), whether reply transaction id / function code are ever compared '
                 'with the request, that the unit filter is request.unit_id, that the framed bytes are those received in this call, '
-                'that no reachable fallback fetches under a foreign key, that a fresh id is allocated and stale framer bytes are cleared before transmitting; a TCP read of unknown size ends only on its deadline; a first read that is not exactly min_size long raises (so the connection is closed); the bytes sent are buildPacket(request) of the same call; the TCP read returns only bytes received in that call. Two genuine defects are listed as known findings.',
+                'that no reachable fallback fetches under a foreign key, that a fresh id is allocated and stale framer bytes are cleared before transmitting; a TCP read of unknown size ends only on its deadline; a first read that is not exactly min_size long raises (so the connection is closed); the bytes sent are buildPacket(request) of the same call; the TCP read returns only bytes received in that call. Two genuine defects are listed as known findings.'
+                ' ClientDecoder.decode contains whatever the reply codecs raise; client decoder tables and manager bookkeeping are per instance.',
         'note': 'Structural necessary conditions; reply contents and connection histories are not explored.',
         'technique': 'key-provenance / must-compare rule over region-scoped path enumeration (static)',
     },
@@ -94,7 +105,8 @@ CLAIMS = {
         'text': 'Loop-variant analysis of the retry loop (initial value retries + 1, > 0 test, exactly one decrement per back-edge, one '
                 '_transact per iteration, no other repeated sender), the retry decision table enumerated over the loop-body paths '
                 'against the documented options (a reply counts as the caller\'s own only under equality of unit ids), exception-flow from _recv/_send through _transact, the five framers and execute '
-                '(what can escape a client call), the clean-exit state / close-on-fault discipline, that the serial client drains stale input before every write for every framing, that a short or empty first read raises, and that the time budget of the client polling loops is fixed before the loop, that every iteration of the RTU send wait loop sets the awaited state or waits on the deadline, and that no transport method closes the socket on a normally returning path.',
+                '(what can escape a client call), the clean-exit state / close-on-fault discipline, that the serial client drains stale input before every write for every framing, that a short or empty first read raises, and that the time budget of the client polling loops is fixed before the loop, that every iteration of the RTU send wait loop sets the awaited state or waits on the deadline, and that no transport method closes the socket on a normally returning path.'
+                ' ClientDecoder.decode contains every codec exception; cursor loops of the response decoders advance on every path; manager bookkeeping is per instance.',
         'note': 'Wall-clock bounds of blocking transport calls and the correctness of a following transaction are not decided. '
                 'Six genuine defects are listed as known findings.',
         'technique': 'loop-variant extraction + decision-table enumeration + interprocedural exception-flow summaries (static)',
@@ -103,7 +115,8 @@ CLAIMS = {
         'text': 'Lock discipline: one lock created once in __init__, execute() runs entirely under `with self.<lock>`, every statement '
                 'with a call or a store lies inside the region, transaction-manager methods touching the client are reachable only '
                 'from the region, the public request API touches no transport method outside it, no second lock / wait / release '
-                'inside the region.',
+                'inside the region.'
+                ' The state the lock protects belongs to the manager instance.',
         'note': 'GIL atomicity of single statements assumed; interleavings are not explored. One genuine defect (connect() before the lock) is a known finding.',
         'technique': 'lock-scope / who-may-call analysis over AST and class-level call graph (static)',
     },
@@ -111,7 +124,8 @@ CLAIMS = {
         'text': 'Decides on every path of the Twisted client protocol: id provenance (getNextTID -> request -> registration key) and '
                 'ordering before buildPacket, 16-bit id arithmetic, routing by reply.transaction_id with removal before callback, the registry returning only the entry stored under the requested id, '
                 'dropping of unsolicited replies, connectionLost clearing the flag before errback-ing a snapshot of all pending entries, '
-                'failed deferred when not connected, FIFO append/pop(0), and the manager selected by a test on the final framer object.',
+                'failed deferred when not connected, FIFO append/pop(0), and the manager selected by a test on the final framer object.'
+                ' The pending-request registry belongs to the manager instance.',
         'note': 'Deferred semantics are Twisted\'s; more than 65535 outstanding requests are out of scope. These rules are regression guards (all hold today).',
         'technique': 'dataflow / ordering rules over enumerated paths (static)',
     },
@@ -120,7 +134,8 @@ CLAIMS = {
                 'character), same path (direct with the configured byte order vs. through the word helpers), decoder advance = '
                 'calcsize and slice [pointer-n:pointer]; WC table = calcsize; the two word helpers are compared as transformations '
                 '(split into network-order words, reverse iff wordorder Little, re-pack per word with the byte order) which makes them '
-                'an involution pair; register transport formats, build() padding, to_string() = join of the current payload on every path, reset() emptying it, and the string format length taken from the bytes that are packed.',
+                'an involution pair; register transport formats, build() padding, to_string() = join of the current payload on every path, reset() emptying it, and the string format length taken from the bytes that are packed.'
+                ' The builder owns its payload list; build() is verified by folding its loop range and slice bounds for payload lengths 0..40.',
         'note': 'struct is trusted for value-level round trips; these rules decide the layout agreement for all values at once.',
         'technique': 'writer/reader pair table + sibling transformation comparison via value propagation (static)',
     },
@@ -129,14 +144,16 @@ CLAIMS = {
                 'exhaustiveness / injectivity / subclassing; the writer summary of every encode() (field order, widths, endianness, '
                 'byte-count expressions, bit lists through pack_bitstring, repeats) is compared with a spec-derived layout table; the '
                 'reader summary of every decode() (offset, width, target attribute, loop start/stride/iteration count) is compared '
-                'with the same table; dispatch dataflow of both _helper functions, including that a sub-function / MEI-type class looked up in a table is tested against None and not for truthiness (sub-function 0 is valid). Message constructors must not store a mutable default argument and must keep a 0 argument of an integer field; decoder.register() must not replace an existing sub-function table; the bit-list helpers are undecorated and return freshly built lists. Five genuine defects are known findings.',
+                'with the same table; dispatch dataflow of both _helper functions, including that a sub-function / MEI-type class looked up in a table is tested against None and not for truthiness (sub-function 0 is valid). Message constructors must not store a mutable default argument and must keep a 0 argument of an integer field; decoder.register() must not replace an existing sub-function table; the bit-list helpers are undecorated and return freshly built lists. Five genuine defects are known findings.'
+                ' Decoder tables are owned by the decoder instance (register() on one decoder cannot change another).',
         'note': 'pack_bitstring/unpack_bitstring arithmetic and struct are trusted; value ranges are not decided. The MEI object list is decided by C20.',
         'technique': 'abstract interpretation to wire-layout summaries compared with frozen spec tables; constant folding of decoder tables (static)',
     },
     'C02': {
         'text': 'Writer/reader agreement computed directly between each encode() summary and the matching decode() summary (independent '
                 'of the spec table), purity of encode (no attribute modified in place without a reset in the same call), decode not '
-                'accumulating, and losslessness of re-classing by sub-function code (no constructor-only state read after the swap; the dispatch is reached for every sub-function code, 0 included), a leading field that decode stores in an attribute is encoded from the message and not from a constant, no constructor stores a mutable default argument, and decoder.register() keeps the existing sub-function tables.',
+                'accumulating, and losslessness of re-classing by sub-function code (no constructor-only state read after the swap; the dispatch is reached for every sub-function code, 0 included), a leading field that decode stores in an attribute is encoded from the message and not from a constant, no constructor stores a mutable default argument, and decoder.register() keeps the existing sub-function tables.'
+                ' Decoder tables are owned by the decoder instance, so registering a class elsewhere cannot change what a round trip returns.',
         'note': 'struct trusted for value equality. Five genuine defects are known findings (four asymmetric pairs, one accumulation pinned by a test).',
         'technique': 'writer/reader layout-summary comparison + reaching-definition style purity rule (static)',
     },
@@ -146,7 +163,8 @@ CLAIMS = {
                 'of the header length, getFrame starts at the function-code offset and ends before the check value, MBAP header parse '
                 'format/binding = build format/binding, populateResult copies the ids, every MBAP length 2..254 is accepted, with default options no framer reads a header key it never defines, receive-side struct codes are the send-side codes, a one-byte TLS PDU is a complete frame); the RTU length oracle (_rtu_frame_size, '
                 '_rtu_byte_count_pos, custom size functions) is compared with the spec layout of every class reachable through '
-                'lookupPduClass; transforms applied on send need an inverse on receive; checksum comparison shape and CRC constants.',
+                'lookupPduClass; transforms applied on send need an inverse on receive; checksum comparison shape and CRC constants.'
+                ' The sub-function dispatch that gives a delivered message its type reaches every registered code (shared with C01).',
         'note': 'Numerical correctness of computeCRC/computeLRC (hence the on-wire CRC byte order) and payload-content sweeps are not decided. Three known findings.',
         'technique': 'wire-layout summaries + affine length arithmetic + declaration-vs-layout cross-check (static)',
     },
@@ -154,7 +172,8 @@ CLAIMS = {
         'text': 'For every data-access request the affine form of get_response_pdu_size() is compared with 1 + the length of the encode '
                 'layout of the response class its execute() returns under the constructor binding; diagnostic predictions are compared '
                 'with the number of reply words per sub-function (Modbus-Plus statistics table const-folded); the per-framer overhead, '
-                'exception length, min_size and function-code peek tables are compared with the buildPacket layout summaries; the no-response bookkeeping that selects the read-everything mode lists a unit exactly on an empty reply and releases it on any non-empty one.',
+                'exception length, min_size and function-code peek tables are compared with the buildPacket layout summaries; the no-response bookkeeping that selects the read-everything mode lists a unit exactly on an empty reply and releases it on any non-empty one.'
+                ' The list of silent units belongs to one transaction manager.',
         'note': 'Assumes getValues(fc, a, n) returns n values; binary overhead exact only without delimiter escaping. Two known findings (Modbus Plus predictions).',
         'technique': 'affine comparison of prediction functions with layout-summary lengths (static)',
     },
@@ -163,7 +182,8 @@ CLAIMS = {
                 'object total admitted by the budget test) is <= 253 and uses the whole PDU; that on every emitting path the budget is '
                 'charged, and the length byte carries, the length of the very payload that is emitted; the progress condition (largest '
                 'object that fits an empty page vs. 245); the continuation dataflow (next_object_id / more_follows / object count / header '
-                'packed after the objects / decode object loop); and the category id sets of the identity factory, constant-folded for every start id and both outcomes of the start-object-populated test.',
+                'packed after the objects / decode object loop); and the category id sets of the identity factory, constant-folded for every start id and both outcomes of the start-object-populated test.'
+                ' The identity store hands out and stores the configured objects unchanged; one known finding: all ModbusDeviceIdentification instances share one class-level object table.',
         'note': 'Completeness and exactly-once over whole continuation chains for all identities are not decided. One known finding (245-byte object never fits).',
         'technique': 'constant/affine evaluation of the budget arithmetic + path-wise accounted-vs-emitted comparison + constant folding of id sets (static)',
     },
